@@ -6,7 +6,31 @@ INS = {"jmp": (b"\xe9\0\0\0\0", 1, 0), "call": (b"\xe8\0\0\0\0", 1, 0), "jcc": (
        "lea": (b"\x48\x8d\x05\0\0\0\0", 3, 1), "nop": (b"\x90", None, None), "ret": (b"\xc3", None, None),
        # call *sym@GOTPCREL(%rip) / jmp *sym@GOTPCREL(%rip): control transfers through the symbol whose edge is not direct
        "icall": (b"\xff\x15\0\0\0\0", 2, 0), "ijmp": (b"\xff\x25\0\0\0\0", 2, 0)}
+# AArch64: b / bl / b.ne / adrp x0 / add x0,x0,#:lo12: ; the expression sits at the first byte of the (fixed-width) instruction
+INS_A64 = {"jmp": (b"\x00\x00\x00\x14", 0, 0), "call": (b"\x00\x00\x00\x94", 0, 0), "jcc": (b"\x01\x00\x00\x54", 0, 0),
+           "lea": (b"\x00\x00\x00\x90", 0, 1), "lo12": (b"\x00\x00\x00\x91", 0, 1), "nop": (b"\x1f\x20\x03\xd5", None, None),
+           "ret": (b"\xc0\x03\x5f\xd6", None, None)}
+TABLES = {"x64": INS, "arm64": INS_A64}
+ISA_NUM = {"x64": 0, "arm64": 2}
 CALLS = ("call", "icall")
+FALLS = ("call", "jcc", "lea", "lo12", "nop", "icall")       # kinds after which execution continues with the next block
+
+
+def ins(c, kind):
+    return TABLES[c.get("isa", "x64")][kind]
+
+
+def last(blk):
+    return blk[-1]
+
+
+def spec_rules(isa, pie):
+    """the ABI's internal/external table as abi.py documents it: (internal attrs, external attrs, access types)"""
+    if isa == "x64":
+        return [(set(), {"GOT", "PCREL"}, {1}), (set(), {"PLT"}, {0})] if pie else [(set(), {"PLT"}, {0, 1})]
+    if isa == "arm64":
+        return [({"LO12"}, {"LO12", "GOT"}, {1}), (set(), {"GOT"}, {1})] if pie else []
+    return []
 ET = {"Branch": 0, "Call": 1, "Fallthrough": 2, "Return": 3}
 
 
@@ -20,16 +44,28 @@ def gen(rnd):
     for s in range(nsym):
         k = rnd.random()
         c["syms"].append(("code", rnd.randrange(nblk)) if k < 0.5 else ("data", rnd.randrange(2)) if k < 0.7 else ("proxy", rnd.randrange(2)) if k < 0.92 else ("none", 0))
-    c["blocks"] = []
-    for b in range(nblk):
-        kind = rnd.choice(["jmp", "call", "jcc", "lea", "nop", "ret", "jmp", "call", "icall", "ijmp"])
-        sym = rnd.randrange(nsym) if INS[kind][1] is not None else None
+    c["isa"] = "arm64" if rnd.random() < 0.3 else "x64"
+    tab = TABLES[c["isa"]]
+
+    def instr(kinds):
+        kind = rnd.choice(kinds)
+        sym = rnd.randrange(nsym) if tab[kind][1] is not None else None
         attrs = []
         if sym is not None and c["syms"][sym][0] in ("proxy", "none") and rnd.random() < 0.7:
-            attrs = ["PLT"] if INS[kind][2] == 0 else (["GOT", "PCREL"] if c["pie"] else ["PLT"])
+            if c["isa"] == "x64":
+                attrs = ["PLT"] if tab[kind][2] == 0 else (["GOT", "PCREL"] if c["pie"] else ["PLT"])
+            elif c["pie"] and tab[kind][2] == 1:
+                attrs = ["GOT"] if kind == "lea" else ["LO12", "GOT"]
+        elif sym is not None and kind == "lo12" and rnd.random() < 0.8:
+            attrs = ["LO12"]
         elif sym is not None and rnd.random() < 0.1:
             attrs = [rnd.choice(["PLT", "GOT"])]
-        c["blocks"].append((kind, sym, rnd.choice([0, 0, 4]), attrs))
+        return (kind, sym, rnd.choice([0, 0, 4]), attrs)
+    finals = ["jmp", "call", "jcc", "lea", "nop", "ret", "jmp", "call"] + (["icall", "ijmp"] if c["isa"] == "x64" else ["lo12"])
+    inner = ["nop", "lea"] + (["lo12"] if c["isa"] == "arm64" else [])
+    c["blocks"] = []
+    for b in range(nblk):
+        c["blocks"].append([instr(inner) for _ in range(rnd.choice([0, 0, 1, 2]))] + [instr(finals)])
     c["data"] = []
     for w in range(2):
         k = rnd.random()
@@ -53,7 +89,8 @@ def gen(rnd):
 def functions(c):
     """consecutive runs of blocks up to and including a ret"""
     out, cur = [], []
-    for b, (kind, _, _, _) in enumerate(c["blocks"]):
+    for b, blk in enumerate(c["blocks"]):
+        kind = last(blk)[0]
         cur.append(b)
         if kind == "ret":
             out.append(cur)
@@ -69,7 +106,8 @@ def return_edges(c, rmap):
     funcs = functions(c)
     func_of = {b: k for k, f in enumerate(funcs) for b in f}
     sites = {}
-    for b, (kind, sym, _, _) in enumerate(c["blocks"]):
+    for b, blk in enumerate(c["blocks"]):
+        kind, sym = last(blk)[0], last(blk)[1]
         if kind in CALLS and b + 1 < len(c["blocks"]):
             ref = c["syms"][rmap.get(sym, sym)]
             if ref[0] == "code":
@@ -77,10 +115,26 @@ def return_edges(c, rmap):
     out = set()
     for k, f in enumerate(funcs):
         for b in f:
-            if c["blocks"][b][0] == "ret":
+            if last(c["blocks"][b])[0] == "ret":
                 for s in sites.get(k, {100}):
                     out.add((b, s))
     return out
+
+
+def layout(c):
+    """per block: offset in the text interval, size; per instruction with an operand: (block, kind, sym, addend, attrs, offset of the
+    expression in the interval, is the block's last instruction)"""
+    offs, sizes, sites = [], [], []
+    pos = 0
+    for b, blk in enumerate(c["blocks"]):
+        offs.append(pos)
+        for j, (kind, sym, addend, attrs) in enumerate(blk):
+            enc, eo, _ = ins(c, kind)
+            if sym is not None:
+                sites.append((b, kind, sym, addend, attrs, pos + eo, j == len(blk) - 1))
+            pos += len(enc)
+        sizes.append(pos - offs[-1])
+    return offs, sizes, sites
 
 
 def build(c):
@@ -88,7 +142,7 @@ def build(c):
     from gtirb_rewriting import _auxdata
     A = gtirb.SymbolicExpression.Attribute
     ir = gtirb.IR()
-    m = gtirb.Module(name="m", isa=gtirb.Module.ISA.X64, file_format=gtirb.Module.FileFormat.ELF, byte_order=gtirb.Module.ByteOrder.Little, ir=ir)
+    m = gtirb.Module(name="m", isa=gtirb.Module.ISA.ARM64 if c.get("isa") == "arm64" else gtirb.Module.ISA.X64, file_format=gtirb.Module.FileFormat.ELF, byte_order=gtirb.Module.ByteOrder.Little, ir=ir)
     m.aux_data["binaryType"] = gtirb.AuxData(["DYN"] if c["pie"] else ["EXEC"], "sequence<string>")
     text = gtirb.Section(name=".text", module=m)
     data = gtirb.Section(name=".data", module=m)
@@ -96,13 +150,9 @@ def build(c):
     dbi = gtirb.ByteInterval(contents=bytes(16), address=0x4000, section=data)
     dblocks = [gtirb.DataBlock(offset=8 * k, size=8, byte_interval=dbi) for k in range(2)]
     proxies = [gtirb.ProxyBlock(module=m) for _ in range(2)]
-    cblocks, offs = [], []
-    content = b""
-    for kind, sym, addend, attrs in c["blocks"]:
-        enc = INS[kind][0]
-        offs.append(len(content))
-        cblocks.append(gtirb.CodeBlock(offset=len(content), size=len(enc)))
-        content += enc
+    offs, sizes, sites = layout(c)
+    cblocks = [gtirb.CodeBlock(offset=o, size=z) for o, z in zip(offs, sizes)]
+    content = b"".join(ins(c, k[0])[0] for blk in c["blocks"] for k in blk)
     tbi.contents = content
     tbi.size = len(content)
     for b in cblocks:
@@ -117,14 +167,13 @@ def build(c):
         if ref is not None:
             s.referent = ref
         syms.append(s)
-    for b, (kind, sym, addend, attrs) in enumerate(c["blocks"]):
-        if sym is None:
-            continue
-        tbi.symbolic_expressions[offs[b] + INS[kind][1]] = gtirb.SymAddrConst(addend, syms[sym], {getattr(A, a) for a in attrs})
+    for b, kind, sym, addend, attrs, eoff, is_last in sites:
+        tbi.symbolic_expressions[eoff] = gtirb.SymAddrConst(addend, syms[sym], {getattr(A, a) for a in attrs})
         ref = syms[sym].referent
-        if INS[kind][2] == 0 and ref is not None and isinstance(ref, (gtirb.CodeBlock, gtirb.ProxyBlock)):
+        if is_last and ins(c, kind)[2] == 0 and ref is not None and isinstance(ref, (gtirb.CodeBlock, gtirb.ProxyBlock)):
             ir.cfg.add(gtirb.Edge(cblocks[b], ref, gtirb.Edge.Label(gtirb.Edge.Type.Call if kind in CALLS else gtirb.Edge.Type.Branch, conditional=(kind == "jcc"), direct=kind not in ("icall", "ijmp"))))
-        if kind in ("call", "jcc", "lea", "icall") and b + 1 < len(cblocks):
+    for b, blk in enumerate(c["blocks"]):
+        if last(blk)[0] in FALLS and b + 1 < len(cblocks):
             ir.cfg.add(gtirb.Edge(cblocks[b], cblocks[b + 1], gtirb.Edge.Label(gtirb.Edge.Type.Fallthrough)))
     for (src, dst) in return_edges(c, {}):
         ir.cfg.add(gtirb.Edge(cblocks[src], cblocks[dst] if dst < 100 else proxies[dst - 100], gtirb.Edge.Label(gtirb.Edge.Type.Return)))
@@ -187,20 +236,14 @@ def model_line(c, objs):
     for i, s in enumerate(syms):
         r = s.referent
         p.append(f"{i} {-1 if r is None else node_id(r, cblocks, dblocks, proxies)} {1 if isinstance(r, gtirb.ByteBlock) else 0} {1 if isinstance(r, gtirb.CfgNode) else 0}")
-    rules = list(ABI.get(m)._sym_expr_rules(m))
-    p.append(str(len(rules)))
-    for r in rules:
-        for xs in (sorted(a.value for a in r.internal_attrs), sorted(a.value for a in r.external_attrs), sorted(acc[a] for a in r.access_types)):
-            p.append(f"{len(xs)} " + " ".join(map(str, xs)))
+    p.append(f"{ISA_NUM[c.get('isa', 'x64')]} 0 {1 if c['pie'] else 0}")      # the model has the ABI's table itself (Sym/AbiRules.v)
     p.append(str(len(c["map"])) + " " + " ".join(f"{a} {b}" for a, b in c["map"]))
     sites = []
-    for b, (kind, sym, addend, attrs) in enumerate(c["blocks"]):
-        if sym is None:
-            continue
+    for b, kind, sym, addend, attrs, eoff, is_last in layout(c)[2]:
         A = gtirb.SymbolicExpression.Attribute
         at = sorted(getattr(A, a).value for a in attrs)
         nb = 2 if c["overlap"] == b else 1
-        sites.append(f"0 {offs[b] + INS[kind][1]} 1 1 {sym} {addend} {len(at)} " + " ".join(map(str, at)) + f" {nb} {b if nb == 1 else -1} 1 {INS[kind][2]}")
+        sites.append(f"0 {eoff} 1 1 {sym} {addend} {len(at)} " + " ".join(map(str, at)) + f" {nb} {b if nb == 1 else -1} 1 {ins(c, kind)[2]}")
     for w, d in enumerate(c["data"]):
         if d is None:
             continue
@@ -225,11 +268,24 @@ def run_impl(c):
     objs = build(c)
     line = model_line(c, objs)
     ir, m, tbi, dbi, cblocks, dblocks, proxies, syms, offs = objs
+    pre = "rules " + impl_rules(m) + " | "
     try:
         retarget_symbol_uses(m, {syms[a]: syms[b] for a, b in c["map"]}, GtirbInstructionDecoder(m.isa))
     except Exception as e:   # noqa
-        return line, "err " + type(e).__name__, objs
-    return line, dump(c, objs), objs
+        return line, pre + "err " + type(e).__name__, objs
+    return line, pre + dump(c, objs), objs
+
+
+def impl_rules(m):
+    """the table the ABI object hands out for this module, canonical"""
+    from gtirb_rewriting.abi import ABI, _SymExprAttributeRule
+    AT = _SymExprAttributeRule.AccessType
+    acc = {AT.CONTROL_FLOW: 0, AT.CODE_REF: 1, AT.DATA: 2}
+
+    def l(xs):
+        return ",".join(map(str, sorted(xs)))
+    return ";".join(sorted(l(a.value for a in r.internal_attrs) + "/" + l(a.value for a in r.external_attrs) + "/" + l(acc[a] for a in r.access_types)
+                           for r in ABI.get(m)._sym_expr_rules(m)))
 
 
 def spec_check(c, out, objs):
@@ -237,37 +293,62 @@ def spec_check(c, out, objs):
     import gtirb
     ir, m, tbi, dbi, cblocks, dblocks, proxies, syms, offs = objs
     rmap = dict(c["map"])
-    if out.startswith("err"):
+    if " | err" in out or out.startswith("err"):
         return None
     A = gtirb.SymbolicExpression.Attribute
-    for b, (kind, sym, addend, attrs) in enumerate(c["blocks"]):
-        if sym is None:
-            continue
-        e = tbi.symbolic_expressions[offs[b] + INS[kind][1]]
+    rules = spec_rules(c.get("isa", "x64"), c["pie"])
+    sites = layout(c)[2]
+    for b, kind, sym, addend, attrs, eoff, is_last in sites:
+        e = tbi.symbolic_expressions[eoff]
         want_sym = rmap.get(sym, sym)
         if e.symbol is not syms[want_sym]:
             return f"operand of block {b} names {e.symbol.name}, expected s{want_sym}"
         if e.offset != addend:
             return f"addend of the operand of block {b} changed"
-        if sym not in rmap and {a.name for a in e.attributes} != set(attrs):
+        got_attrs = {a.name for a in e.attributes}
+        if sym not in rmap and got_attrs != set(attrs):
             return f"attributes of an operand that was not retargeted changed"
+        if sym in rmap:
+            # converted per the ABI's internal/external rule: the rule whose side for the old symbol equals the operand's attributes
+            old_def, new_def = c["syms"][sym][0] in ("code", "data"), c["syms"][rmap[sym]][0] in ("code", "data")
+            match = [r for r in rules if ins(c, kind)[2] in r[2] and set(attrs) == r[0 if old_def else 1]]
+            want_attrs = set(attrs) if len(match) != 1 else match[0][0 if new_def else 1]
+            if got_attrs != want_attrs:
+                return (f"operand of block {b} ({kind}, {'PIE' if c['pie'] else 'non-PIE'} {c.get('isa', 'x64')}) retargeted from a "
+                        f"{'defined' if old_def else 'external'} to a {'defined' if new_def else 'external'} symbol has attributes {sorted(got_attrs)}, the ABI's rule gives {sorted(want_attrs)}")
     for w, d in enumerate(c["data"]):
         if d is not None and d[0] == "const":
             e = dbi.symbolic_expressions[8 * w]
             if e.symbol is not syms[rmap.get(d[1], d[1])] or e.offset != d[2]:
                 return f"data word {w} names {e.symbol.name}+{e.offset}"
+    # CFI directives and symbolForwarding: every mention of an old symbol now names the new one, nothing else changed
+    from gtirb_rewriting import _auxdata
+    sid = {id(x): i for i, x in enumerate(syms)}
+    tab = _auxdata.cfi_directives.get(m) or {}
+    if len(tab) != len(c["cfi"]):
+        return f"the CFI table has {len(tab)} entries, had {len(c['cfi'])}"
+    for k, ds in enumerate(c["cfi"]):
+        gotl = [(d[0], sid.get(id(d[2])) if isinstance(d[2], gtirb.Symbol) else None) for d in tab.get(gtirb.Offset(cblocks[0], k), [])]
+        wantl = [(f".cfi_tag{t}", None if sy is None else rmap.get(sy, sy)) for t, sy in ds]
+        if gotl != wantl:
+            return f"CFI directives at displacement {k} are {gotl}, expected {wantl}"
+    gotf = {(sid.get(id(a)), sid.get(id(b))) for a, b in (_auxdata.symbol_forwarding.get(m) or {}).items()}
+    wantf = {(a, rmap.get(b, b)) for a, b in c["fwd"]}
+    if gotf != wantf:
+        return f"symbolForwarding is {sorted(gotf)}, expected {sorted(wantf)}"
     # edges: exactly the branch / call edges of instructions whose operand was retargeted lead to the new referent
     want = set()
-    for b, (kind, sym, addend, attrs) in enumerate(c["blocks"]):
-        if sym is None:
+    for b, kind, sym, addend, attrs, eoff, is_last in sites:
+        if not is_last:
             continue
-        tgt = rmap.get(sym, sym) if INS[kind][2] == 0 else sym
+        tgt = rmap.get(sym, sym) if ins(c, kind)[2] == 0 else sym
         old_ref = c["syms"][sym]
-        if INS[kind][2] == 0 and old_ref[0] in ("code", "proxy"):
+        if ins(c, kind)[2] == 0 and old_ref[0] in ("code", "proxy"):
             new_ref = c["syms"][tgt]
             nid = new_ref[1] if new_ref[0] == "code" else 100 + new_ref[1]
             want.add((b, nid, 1 if kind in CALLS else 0))
-        if kind in ("call", "jcc", "lea", "icall") and b + 1 < len(cblocks):
+    for b, blk in enumerate(c["blocks"]):
+        if last(blk)[0] in FALLS and b + 1 < len(cblocks):
             want.add((b, b + 1, 2))
     got = {(node_id(e.source, cblocks, dblocks, proxies), node_id(e.target, cblocks, dblocks, proxies), ET[e.label.type.name]) for e in ir.cfg}
     if {x for x in got if x[2] != 3} != want:
@@ -279,6 +360,112 @@ def spec_check(c, out, objs):
     return None
 
 
+def gen_requests(rnd):
+    """a module and a sequence of RewritingContext.retarget_symbol_uses requests: symbols of the module (with and without referent),
+    symbols of another module, the same old symbol twice, chains"""
+    while True:
+        c = gen(rnd)
+        if c["overlap"] is None:
+            break
+    n = len(c["syms"])
+    ids = list(range(n)) + [n, n + 1]               # n: foreign symbol with a referent, n+1: foreign symbol without
+    reqs = []
+    for _ in range(rnd.randint(2, 6)):
+        if reqs and rnd.random() < 0.25:
+            reqs.append((rnd.choice(reqs)[0], rnd.choice(ids)))
+        else:
+            reqs.append((rnd.choice(ids if rnd.random() < 0.25 else ids[:n]), rnd.choice(ids if rnd.random() < 0.3 else ids[:n])))
+    return c, reqs
+
+
+def module_dump(m, syms, nodes):
+    """the symbol mentions and the CFG of a module, keyed by address (block objects survive apply(), byte intervals need not)"""
+    import gtirb
+    from gtirb_rewriting import _auxdata
+    sid = {id(x): i for i, x in enumerate(syms)}
+    rows = []
+    for bi in m.byte_intervals:
+        for off, e in bi.symbolic_expressions.items():
+            rows.append(f"{bi.address + off:x}:" + ",".join(str(sid.get(id(x))) for x in e.symbols) + "{" + ",".join(sorted(a.name for a in e.attributes)) + "}")
+    out = ["sites " + ";".join(sorted(rows))]
+    out.append("cfi " + ";".join(sorted(f"{nodes.get(id(o.element_id))}+{o.displacement}=" + "/".join(d[0] + ":" + str(sid.get(id(d[2]))) for d in ds)
+                                        for o, ds in (_auxdata.cfi_directives.get(m) or {}).items())))
+    out.append("fwd " + ",".join(sorted(f"{sid.get(id(a))}>{sid.get(id(b))}" for a, b in (_auxdata.symbol_forwarding.get(m) or {}).items())))
+    out.append("edges " + ",".join(sorted(f"{nodes.get(id(e.source))}>{nodes.get(id(e.target))}:{e.label.type.name}" for e in m.ir.cfg)))
+    return " | ".join(out)
+
+
+def run_requests(c, reqs):
+    """returns (model line, implementation's answers, violation text or None)"""
+    import gtirb
+    import gtirb_rewriting
+    from gtirb_capstone.instructions import GtirbInstructionDecoder
+    from gtirb_rewriting._modify.retarget import retarget_symbol_uses
+
+    def world():
+        objs = build(c)
+        ir, m, tbi, dbi, cblocks, dblocks, proxies, syms, offs = objs
+        other = gtirb.Module(name="other", isa=m.isa, file_format=m.file_format, ir=ir)
+        fsec = gtirb.Section(name=".text", module=other)
+        fbi = gtirb.ByteInterval(contents=b"\xc3", address=0x9000, section=fsec)
+        fb = gtirb.CodeBlock(offset=0, size=1, byte_interval=fbi)
+        allsyms = list(syms) + [gtirb.Symbol("foreign", payload=fb, module=other), gtirb.Symbol("foreign_undef", module=other)]
+        nodes = {id(b): f"c{k}" for k, b in enumerate(cblocks)}
+        nodes.update({id(b): f"d{k}" for k, b in enumerate(dblocks)})
+        nodes.update({id(b): f"p{k}" for k, b in enumerate(proxies)})
+        return ir, m, allsyms, nodes
+    ir, m, allsyms, nodes = world()
+    n = len(c["syms"])
+    line = "requests " + str(n + 2) + " " + " ".join(f"{1 if i < n else 0} {1 if allsyms[i].referent is not None else 0}" for i in range(n + 2)) + \
+        f" {len(reqs)} " + " ".join(f"{a} {b}" for a, b in reqs)
+    ctx = gtirb_rewriting.RewritingContext(m, [])
+    outs, accepted = [], []
+    for a, b in reqs:
+        before = dict(ctx._symbol_retargets)
+        try:
+            ctx.retarget_symbol_uses(allsyms[a], allsyms[b])
+            outs.append("1")
+            accepted.append((a, b))
+        except ValueError:
+            outs.append("0")
+            if dict(ctx._symbol_retargets) != before:
+                return line, "", "a refused retarget request changed what the context has recorded"
+        except Exception as e:   # noqa
+            outs.append("E" + type(e).__name__)
+    # the property's list of invalid requests, read off the request sequence itself
+    seen, want = set(), []
+    for a, b in reqs:
+        ok = a < n and b < n and allsyms[b].referent is not None and a not in seen
+        want.append("1" if ok else "0")
+        if ok:
+            seen.add(a)
+    if outs != want:
+        k = next(i for i, (x, y) in enumerate(zip(outs, want)) if x != y)
+        a, b = reqs[k]
+        return line, "", (f"request {k} of {reqs} (old: {'foreign' if a >= n else 'own'} symbol{' already retargeted' if a in [x for x, _ in accepted[:k]] else ''}, new: "
+                          f"{'foreign' if b >= n else 'own'} symbol {'with' if allsyms[b].referent is not None else 'without'} referent) was "
+                          f"{'accepted' if outs[k] == '1' else 'answered with ' + outs[k]}, the property wants it {'accepted' if want[k] == '1' else 'refused'}")
+    sid = {id(x): i for i, x in enumerate(allsyms)}
+    got = "outs " + ",".join(outs) + " | recorded " + ",".join(f"{sid[id(a)]}>{sid[id(b)]}" for a, b in ctx._symbol_retargets.items())
+    # applying the context does what retarget_symbol_uses does with the accepted requests on a twin of the module
+    viol = None
+    try:
+        ctx.apply()
+        res = module_dump(m, allsyms, nodes)
+    except Exception as e:   # noqa
+        res = "err"            # which of several offending expressions is met first depends on iteration order
+    ir2, m2, allsyms2, nodes2 = world()
+    try:
+        gtirb_rewriting.RewritingContext(m2, []).apply()      # the same preparation, nothing to retarget
+        retarget_symbol_uses(m2, {allsyms2[a]: allsyms2[b] for a, b in accepted}, GtirbInstructionDecoder(m2.isa))
+        res2 = module_dump(m2, allsyms2, nodes2)
+    except Exception as e:   # noqa
+        res2 = "err"
+    if res != res2:
+        viol = f"a context with the requests {reqs} (accepted: {accepted}) leaves {res[:300]} ; retargeting exactly the accepted pairs gives {res2[:300]}"
+    return line, got, viol
+
+
 class C18(Prop):
     id = "C18"
     gens = []
@@ -286,13 +473,17 @@ class C18(Prop):
     extract = ("sym", "ExtractSym.v", "sym_main.ml", "Sym_model")
     allowed_axioms = set()
     trusted_base = ["Coq 8.16.1 kernel", "hand model Sym/Retarget.v of _modify/retarget.py, tied by running the extracted model against "
-                    "retarget_symbol_uses() on random modules", "the ABI's attribute rules (ABI._sym_expr_rules) and the access type of each operand "
-                    "(from the generator's own knowledge of the instruction, not from the decoder under test) are inputs of the model",
+                    "retarget_symbol_uses() on random modules", "hand model Sym/AbiRules.v of the ABI tables (ABI._sym_expr_rules, compared with the table the ABI object hands out for "
+                    "every generated module) and of RewritingContext.retarget_symbol_uses (request sequences run against a context)",
+                    "the access type of each operand is an input of the model (from the generator's own knowledge of the instruction, "
+                    "not from the decoder under test)",
                     "extraction: ExtrOcamlBasic only; OCaml driver ocaml/zutil.ml + sym_main.ml"]
     assumptions = ["at most one expression of a case triggers an error, so that the error class does not depend on set iteration order"]
-    level_rule = ("random x86-64 ELF modules (PIE and non-PIE): code blocks jmp/call/jcc/lea with symbolic operands (internal and external "
-                  "symbols, PLT / GOT+PCREL attributes), data words (SymAddrConst, SymAddrAddr), overlapping blocks, CFI directives and "
-                  "symbolForwarding naming symbols; 1-2 retarget pairs")
+    level_rule = ("random x86-64 and AArch64 ELF modules (PIE and non-PIE, mixed in one process): code blocks of 1-3 instructions "
+                  "(jmp/call/jcc/lea/adrp/add :lo12:, indirect call/jmp) with symbolic operands (internal and external symbols, PLT / GOT+PCREL / "
+                  "GOT / LO12 attributes), data words (SymAddrConst, SymAddrAddr), overlapping blocks, CFI directives and symbolForwarding naming "
+                  "symbols; 1-2 retarget pairs; sequences of 2-6 requests to a RewritingContext (foreign symbols, symbols without referent, "
+                  "repeated old symbols) followed by apply()")
 
     @staticmethod
     def error_sources(c):
@@ -301,12 +492,12 @@ class C18(Prop):
         for d in c["data"]:
             if d is not None and d[0] == "addr" and (d[1] in rmap or d[2] in rmap):
                 n += 1
-        for b, (kind, sym, addend, attrs) in enumerate(c["blocks"]):
-            if sym is None or sym not in rmap:
+        for b, kind, sym, addend, attrs, eoff, is_last in layout(c)[2]:
+            if sym not in rmap:
                 continue
             if c["overlap"] == b:
                 n += 1
-            elif INS[kind][2] == 0 and c["syms"][sym][0] in ("code", "proxy") and c["syms"][rmap[sym]][0] == "data":
+            elif is_last and ins(c, kind)[2] == 0 and c["syms"][sym][0] in ("code", "proxy") and c["syms"][rmap[sym]][0] == "data":
                 n += 1
         return n
 
@@ -327,12 +518,23 @@ class C18(Prop):
         lines = [l for l, _, _ in runs]
         got = C.run_driver("sym", lines)
         dis = [{"case": l[:300], "implementation": o, "model": g} for (l, o, _), g in zip(runs, got) if o != g]
+        # the request layer of RewritingContext against Sym/AbiRules.v: request_retarget
+        rnd = C.rng("c18-requests")
+        rq = [gen_requests(rnd) for _ in range({"quick": 600, "thorough": 4000}[tier])]
+        rruns = [run_requests(c, reqs) for c, reqs in rq]
+        rgot = C.run_driver("sym", [l for l, _, _ in rruns])
+        dis += [{"case": l[:300], "implementation": o, "model": g} for (l, o, v), g in zip(rruns, rgot) if o != g and not v]
+        self._req_viol = [dict(what=v, input={"module": c, "requests": reqs}, finding=None) for (c, reqs), (_, _, v) in zip(rq, rruns) if v]
+        lines = lines + [l for l, _, _ in rruns]
+        refused = sum(o.count("0") for _, o, _ in rruns)
         errs = {}
         for _, o, _ in runs:
-            if o.startswith("err"):
+            if " | err " in o:
+                o = o[o.index(" | err ") + 3:]
                 errs[o] = errs.get(o, 0) + 1
         return dict(evaluations=len(lines), distinct_nontrivial=len(set(lines)), samples=[{"case": l[:160], "result": o[:200]} for l, o, _ in runs[:4]],
-                    disagreements=dis[:20], dist={"cases": len(cases), "errors": errs})
+                    disagreements=dis[:20], dist={"cases": len(cases), "errors": errs, "request_sequences": len(rq), "requests_refused": refused,
+                                                         "arm64_modules": sum(1 for c in cases if c.get("isa") == "arm64")})
 
     def oracle(self, tier, ctx, boosted):
         runs = getattr(self, "_runs", None)
@@ -340,7 +542,7 @@ class C18(Prop):
             cases = self.cases("thorough" if boosted else tier, "c18-boost")
             runs = (runs or []) + [(c, run_impl(c)) for c in cases]
         bads = []
-        corpus = {'pie': False, 'syms': [('code', 0), ('code', 2)], 'blocks': [('ret', None, 0, []), ('call', 0, 0, []), ('ret', None, 0, [])],
+        corpus = {'pie': False, 'syms': [('code', 0), ('code', 2)], 'blocks': [[('ret', None, 0, [])], [('call', 0, 0, [])], [('ret', None, 0, [])]],
                   'data': [None, None], 'overlap': None, 'cfi': [], 'fwd': [], 'map': [(0, 1)]}
         runs = [(corpus, run_impl(corpus))] + list(runs)
         for c, (line, out, objs) in runs:
@@ -350,6 +552,7 @@ class C18(Prop):
                                  input=c, finding=v[len("FINDING:"):]))
             elif v:
                 bads.append(dict(what=v, input=c, finding=None))
+        bads += getattr(self, "_req_viol", [])
         bads = [b for b in bads if b["finding"] is None][:10] + [b for b in bads if b["finding"]][:2]
         return dict(evaluations=len(runs), violations=bads, samples=[{"oracle": "operands, addends, untouched attributes and the exact edge set after the call"}])
 
